@@ -38,12 +38,32 @@ def replay_first_row():
             if any(abs(got[s_] - want[s_]) > 1e-9 for s_ in want):
                 problems.append("py_simulate_model(stochastic=%s, delay=%s, safe=%s, volume=%s) from t=%s: first row %s, initial condition with rules applied %s"
                                 % (stochastic, delay, safe, vol, t0, got, want))
+    # deterministic mode, rules for which a second pass is not the same as one pass (self-reference; a rule that reads a later rule's target)
+    for safe, vol in itertools.product((False, True), (None, 2.5)):
+        M = Model(species=["A", "X", "T"], reactions=[(["A"], [], "massaction", {"k": 0.3})],
+                  rules=[("assignment", {"equation": "T = A + X"}, "repeated"), ("assignment", {"equation": "X = X + 2*A"}, "repeated")],
+                  initial_condition_dict={"A": 4, "X": 10, "T": 0})
+        try:
+            df = py_simulate_model(np.linspace(0, 1, 5), Model=M, stochastic=False, safe=safe, volume=vol)
+        except Exception as e:
+            problems.append("deterministic py_simulate_model(safe=%s, volume=%s) raised %s: %s" % (safe, vol, type(e).__name__, e))
+            continue
+        got = {s_: float(df[s_].iloc[0]) for s_ in ("A", "X", "T")}
+        want = {"A": 4.0, "T": 14.0, "X": 18.0}
+        if any(abs(got[s_] - want[s_]) > 1e-9 for s_ in want):
+            problems.append("deterministic py_simulate_model(safe=%s, volume=%s): first row %s, initial condition with the rules applied once (in order) %s" % (safe, vol, got, want))
     return {"reproduced": bool(problems), "observed": problems[:3], "expected": "first row = initial condition with assignment rules applied"}
 
 
 def replay(spec):
     import warnings
     warnings.simplefilter("ignore")
+    if spec.get("kind") == "scenario":
+        r = replay_first_row()
+        if r["reproduced"]:
+            return r
+        from . import C09
+        return C09.replay(spec)
     if spec.get("kind") == "interface":
         r = replay_first_row()
         if r["reproduced"]:
